@@ -574,10 +574,18 @@ func (z *BigInt) GCD(x, y, a, b *BigInt) *BigInt {
 	yi := y.innerOrNilOrAlias(&tmp5, b, bi)
 	zi.GCD(xi, yi, ai, bi)
 	z.updateInner(zi)
+	// NOTE: (big.Int).GCD can hand back a zero cofactor with its sign flag
+	// set; clear it so that a heap-allocated x or y is not left as -0.
 	if xi != nil {
+		if xi.Sign() == 0 {
+			xi.SetUint64(0)
+		}
 		x.updateInner(xi)
 	}
 	if yi != nil {
+		if yi.Sign() == 0 {
+			yi.SetUint64(0)
+		}
 		y.updateInner(yi)
 	}
 	return z
